@@ -1,7 +1,7 @@
 """C09 — bit-packed sub-fields are exact and isolated."""
 import numpy as np
 
-THEOREMS = ["C09_masks_cover", "C09_bytes_in_layout", "C09_lsb_correct", "C09_disjoint", "C09_get_set",
+THEOREMS = ["C09_bits_of_the_dimension", "C09_masks_cover", "C09_bytes_in_layout", "C09_lsb_correct", "C09_disjoint", "C09_get_set",
             "C09_isolated", "getBits_of_clear_eq", "C09_siblings", "C09_range", "scatter_frame",
             "scatter_spec", "C09_frame", "C09_addressed", "C09_history"]
 
@@ -15,6 +15,46 @@ def subfields(fmt):
         for s in subs:
             res.append((cname, s.name, int(s.mask)))
     return res
+
+
+# the bits of each named dimension as the ASPRS tables give them: (byte name, dimension, lowest bit, width)
+SPEC_BITS_05 = [("bit_fields", "return_number", 0, 3), ("bit_fields", "number_of_returns", 3, 3), ("bit_fields", "scan_direction_flag", 6, 1),
+                ("bit_fields", "edge_of_flight_line", 7, 1), ("raw_classification", "classification", 0, 5), ("raw_classification", "synthetic", 5, 1),
+                ("raw_classification", "key_point", 6, 1), ("raw_classification", "withheld", 7, 1)]
+SPEC_BITS_610 = [("bit_fields", "return_number", 0, 4), ("bit_fields", "number_of_returns", 4, 4), ("classification_flags", "synthetic", 0, 1),
+                 ("classification_flags", "key_point", 1, 1), ("classification_flags", "withheld", 2, 1), ("classification_flags", "overlap", 3, 1),
+                 ("classification_flags", "scanner_channel", 4, 2), ("classification_flags", "scan_direction_flag", 6, 1),
+                 ("classification_flags", "edge_of_flight_line", 7, 1)]
+
+
+def spec_bits_layer(ck):
+    """assigning the largest value to a named dimension of an all-zero record sets exactly the bits the layout gives that dimension"""
+    from laspy import PackedPointRecord, PointFormat
+    for fmt in range(11):
+        for cname, name, lsb, width in (SPEC_BITS_05 if fmt <= 5 else SPEC_BITS_610):
+            rec = PackedPointRecord.zeros(3, PointFormat(fmt))
+            mx = (1 << width) - 1
+            inp = {"kind": "spec_bits", "fmt": fmt, "field": name, "value": mx}
+            ck.evaluations += 1
+            ck.case(("spec_bits", fmt, name))
+            try:
+                rec[name][:] = mx
+                raw = bytes(rec.array.tobytes())
+            except Exception as e:
+                ck.fail(f"fmt {fmt}: {name}[:] = {mx} raised {type(e).__name__}: {e}", inp)
+                continue
+            size = rec.array.dtype.itemsize
+            exp = bytearray(3 * size)
+            try:
+                off = rec.array.dtype.fields[cname][1]
+            except KeyError:
+                ck.fail(f"fmt {fmt}: the record has no packed byte {cname!r} for {name}", inp)
+                continue
+            for p in range(3):
+                exp[p * size + off] = mx << lsb
+            if raw != bytes(exp):
+                got = raw[off]
+                ck.fail(f"fmt {fmt}: {name}[:] = {mx} on zero bytes gives 0x{got:02x} in {cname}, the LAS layout puts that dimension at 0x{mx << lsb:02x}", inp)
 
 
 def lsb_of(mask):
@@ -284,6 +324,13 @@ def key_from_json(j):
 def replay(inp):
     from laspy import PackedPointRecord, PointFormat
     from laspy.point import dims
+    if inp["kind"] == "spec_bits":
+        fmt, name, mx = inp["fmt"], inp["field"], inp["value"]
+        cname, _, lsb, width = next(r for r in (SPEC_BITS_05 if fmt <= 5 else SPEC_BITS_610) if r[1] == name)
+        rec = PackedPointRecord.zeros(1, PointFormat(fmt))
+        rec[name][:] = mx
+        got = int(rec.array[cname][0])
+        return None if got == mx << lsb else f"fmt {fmt}: {name}[:] = {mx} on a zero byte gives 0x{got:02x}, the layout says 0x{mx << lsb:02x}"
     if inp["kind"] == "single":
         fmt, name, v = inp["fmt"], inp["name"], inp["value"]
         cname, _, mask = next(s for s in subfields(fmt) if s[1] == name)
@@ -397,6 +444,48 @@ def alias_and_size_layer(ck, n_cases):
         if rec.array.tobytes() != exp:
             got = [(b >> lsb_of(mask)) & mx for b in rec.array[cname].tolist()]
             ck.fail(f"{name}: used, then the record resized {n} -> {m}, then assigned {vals[:6]}: the record's field reads {got[:6]} (or other bits changed)", inp)
+    # the value is the view of the same-named field of another record, of a point format where that field has another width or
+    # position (return_number: 3 bits in formats 0-5, 4 bits in 6-10; classification: 5 bits vs a whole byte ...)
+    import laspy
+    for ci in range(n_cases):
+        name = ck.rng.choice(["return_number", "number_of_returns", "classification", "scan_direction_flag", "edge_of_flight_line", "synthetic", "withheld", "key_point"])
+        fa, fb = ck.rng.choice([(1, 6), (6, 1), (3, 7), (0, 6), (8, 2), (6, 7)])
+        n = ck.rng.choice([3, 8])
+        src, dst = new_record(fa, n, ck.rng), new_record(fb, n, ck.rng)
+        if name not in [x[1] for x in subfields(fa)] or name not in [x[1] for x in subfields(fb)]:
+            continue
+        cname, _, mask = next(x for x in subfields(fb) if x[1] == name)
+        mx = mask >> lsb_of(mask)
+        vals = [int(v) for v in np.array(src[name]).tolist()]
+        before = dst.array.tobytes()
+        off = dst.array.dtype.fields[cname][1]
+        size = dst.array.dtype.itemsize
+        inp = {"kind": "view_of_other_format", "field": name, "from_fmt": fa, "to_fmt": fb, "values": vals, "before": before.hex()[:300]}
+        ck.case(("otherfmt", name, fa, fb, tuple(vals), before), nontrivial=True)
+        ck.count("value_is_view_of_other_format")
+        how = ck.rng.choice(["record_setitem", "view_setitem"])
+        try:
+            if how == "record_setitem":
+                dst[name] = src[name]
+            else:
+                dst[name][:] = src[name]
+            err = None
+        except OverflowError:
+            err = "Overflow"
+        except Exception as e:
+            err = "Other:" + type(e).__name__
+        if all(v <= mx for v in vals):
+            exp = expected_image(before, size, off, mask, list(range(n)), vals)
+            if err is not None:
+                ck.fail(f"{name} (format {fb}) = view of {name} of a format-{fa} record, values {vals}: raised {err}", inp)
+            elif dst.array.tobytes() != exp:
+                got = [(b >> lsb_of(mask)) & mx for b in dst.array[cname].tolist()]
+                ck.fail(f"{name} (format {fb}) = view of {name} of a format-{fa} record ({how}): assigned {vals}, the field reads {got} (or other bits changed)", inp)
+        else:
+            if err != "Overflow":
+                ck.fail(f"{name} (format {fb}, max {mx}) = view holding {vals}: no OverflowError ({err})", inp)
+            elif dst.array.tobytes() != before:
+                ck.fail(f"{name} (format {fb}) = out-of-range view: OverflowError raised but the record was modified", inp)
     # long arrays: 70000 points, one out-of-range value late in the array -> OverflowError and nothing modified
     for ci in range(2 if n_cases <= 40 else 8):
         fmt = ck.rng.choice(fmts)
@@ -434,6 +523,7 @@ def run(ck):
                "record addressed; distinct by (format, field, key, values, prior bytes)")
     ck.regen()
     ck.lean_props("C09", THEOREMS)
+    spec_bits_layer(ck)
     single_byte_layer(ck)
     array_layer(ck, 300 if ck.tier == "quick" else 6000)
     alias_and_size_layer(ck, 40 if ck.tier == "quick" else 600)
